@@ -73,7 +73,8 @@ for _k in ('C01', 'C02', 'C04', 'C05'):
 # round 11 (DESIGN 31)
 CLAIMED['C01']['text'] += ' The identity is claimed only where the quotients of the code are defined (div-domain: every denominator on the accepted paths has a strict sign certificate), and the growth-order rule compares with the form S2 - mean*S1 (squaring the sum is reported).'
 CLAIMED['C04']['text'] += ' The identity is claimed only where the quotients of the code are defined (div-domain: every denominator on the accepted paths, the Welch ratio included, has a strict sign certificate on both variance regions); growth orders as in C01.'
-CLAIMED['C02']['text'] += ' Denominators of the accepted path whose certificate attains zero on the box are reported (div-domain, lenient).'
+CLAIMED['C02']['text'] += ' Denominators of the accepted path whose certificate attains zero on the box are reported (div-domain, lenient); and for a rare event (k fixed, n -> infinity) no bound may be the difference of two intermediates whose leading terms cancel (cancellation: leading-order analysis of the code term, sa/asym.py).'
+CLAIMED['C02']['tech'] += ' + leading-order (asymptotic) cancellation analysis'
 CLAIMED['C03']['text'] += ' The contract of the stubbed callee ci_wilson is not taken on trust: the C02 obligations on ci_wilson (domain table, signed formula, unit interval, exact guards, radicand, integer arithmetic) are re-established on the same facts and reported under C03 (wilson-contract).'
 CLAIMED['C10']['text'] += ' For the geometric / harmonic wrappers the region tables of C05 (an interval exactly on the positivity proviso, for every kind alike) are re-established and reported under C10 (wrapper-regions).'
 CLAIMED['C16']['text'] += ' Exact scaling is claimed on the range where the form mean -/+ c*sqrt((S2 - mean*S1)/(n-1))/sqrt(n) stays finite: no intermediate of the code may grow faster in (data scale, sample size) than that form (scale-range).'
